@@ -132,9 +132,9 @@ Proof.
     + eapply gmvs_trans; [apply gmvs_one, (gmv_pop _ c fr q); assumption|].
       eapply gmvs_mvs. apply (mvs_sl_frame hstate dec_field enc_set_max cfg Q HQ_new HQ_closed HQ_handle_state HQ_weReset HQ_flags HQ_window HQ_snd HQ_frame (upd_readerQ c q) fr Hd (IO eq_refl)).
   - rewrite step_EvDone. destruct (sc_sl_done c) eqn:Hd; [constructor|].
-    destruct (mvs_sl_done hstate dec_field enc_field cfg Q HQ_closed HQ_weReset HQ_flags HQ_snd c sid r Hd) as [E|M].
+    destruct (mvs_sl_done hstate dec_field enc_field cfg Q HQ_closed HQ_weReset HQ_flags HQ_snd c sid r Hd) as [(E & _)|(b & M1 & M)].
     + rewrite E. constructor.
-    + eapply gmvs_mvs. exact M.
+    + eapply gmvs_trans; [apply gmvs_one, (gmv_sl _ _ _ _ M1) | eapply gmvs_mvs; exact M].
   - rewrite step_EvClock. destruct (_ <? _)%Z; [apply gmvs_one, gmv_now | constructor].
   - rewrite step_EvTimer. destruct (sc_sl_done c) eqn:Hd; [constructor|].
     eapply gmvs_mvs. apply mvs_sl_timer. assumption.
